@@ -480,18 +480,27 @@ def obs_sources(c, xy, where):
         except Exception as ex:  # e.g. relative error without reference
             v["exception"] = type(ex).__name__
         values[n] = v
-    g = [("sources.names", names, 0.0, 0.0, where), ("sources.enabled", enabled, 0.0, 0.0, where), ("sources.kind", kind, 0.0, 0.0, where), ("sources.values", values, RT, 0.0, where)]
-    tot = {}
-    try:
-        if xy:
-            tot = {"x_err": c.x_err, "y_err": c.y_err, "x_cov_mat": c.x_cov_mat, "y_cov_mat": c.y_cov_mat}
-        else:
-            tot = {"err": c.err, "cov_mat": c.cov_mat}
-        tot["has_errors"] = bool(c.has_errors)
-    except Exception as ex:
-        tot["exception"] = type(ex).__name__
-    g.append(("total_error", tot, RT, 0.0, where))
+    covs = {n: {"cov_mat": v.pop("cov_mat")} for n, v in values.items() if "cov_mat" in v}
+    cscale = max([float(np.max(np.abs(np.diag(c["cov_mat"])))) for c in covs.values() if np.size(c["cov_mat"])] + [0.0])
+    g = [("sources.names", names, 0.0, 0.0, where), ("sources.enabled", enabled, 0.0, 0.0, where), ("sources.kind", kind, 0.0, 0.0, where), ("sources.values", values, RT, 0.0, where), ("sources.values", covs, RT, RT * cscale, where)]
+    g.extend(total_groups({"x_err": lambda: c.x_err, "y_err": lambda: c.y_err} if xy else {"err": lambda: c.err}, {"x_cov_mat": lambda: c.x_cov_mat, "y_cov_mat": lambda: c.y_cov_mat} if xy else {"cov_mat": lambda: c.cov_mat}, where, {"has_errors": bool(c.has_errors)}))
     return g
+
+
+def total_groups(errs, covs, where, extra=None):
+    """total uncertainties: vectors relative 1e-15, matrices additionally 1e-15 of the largest variance (a total is a sum of
+    sources, each of which may have been re-derived once; cancellation between sources must not be held against the file format)"""
+    e, c = dict(extra or {}), {}
+    try:
+        for k, fn in errs.items():
+            e[k] = fn()
+        for k, fn in covs.items():
+            c[k] = fn()
+    except Exception as ex:
+        e["exception"] = type(ex).__name__
+    sc = max([float(np.max(np.abs(np.diag(m)))) for m in c.values() if m is not None and np.ndim(m) == 2 and np.size(m)] + [0.0])
+    se = max([float(np.max(np.abs(v))) for k, v in e.items() if isinstance(v, np.ndarray) and v.size] + [0.0])
+    return [("total_error", e, RT, RT * se, where), ("total_error", c, RT, RT * sc, where)]
 
 
 def obs_container(c, where="", model=False):
@@ -502,7 +511,7 @@ def obs_container(c, where="", model=False):
         if not model:
             d.update(data=c.data, underflow=c.underflow, overflow=c.overflow, n_entries=c.n_entries)
             if not c._manual_heights:
-                d["raw_data"] = c.raw_data
+                d["raw_data"] = sorted(float(v) for v in c.raw_data)  # entry order changes when the container processes pending entries
     elif xy:
         d = {"x": c.x} if model else {"x": c.x, "y": c.y}
     elif isinstance(c, UnbinnedParametricModel):
@@ -620,12 +629,7 @@ def obs_fit(fit, where=""):
     if not custom:
         if dea_matters(fit):
             g.append(("dynamic_error_algorithm", fit.dynamic_error_algorithm, 0.0, 0.0, where))
-        tot = {}
-        try:
-            tot = {"total_error": fit.total_error, "total_cov_mat": fit.total_cov_mat, "data_cov_mat": fit.data_cov_mat, "model_cov_mat": fit.model_cov_mat}
-        except Exception as ex:
-            tot = {"exception": type(ex).__name__}
-        g.append(("total_error", tot, RT, 0.0, where + "fit."))
+        g.extend(total_groups({"total_error": lambda: fit.total_error}, {"total_cov_mat": lambda: fit.total_cov_mat, "data_cov_mat": lambda: fit.data_cov_mat, "model_cov_mat": lambda: fit.model_cov_mat}, where + "fit."))
         g.append(("points.model", {"model": np.array(fit.model, dtype=float)}, ULP, 0.0, where + "current."))
     g.extend(result_groups(fit, where))
     return g
@@ -1149,8 +1153,11 @@ def gen_case(rng, tier, gi):
 
 
 # ------------------------------------------------------------------ features of a case (non-triviality, strata, classifier input)
-def _src_features(s, f, model_ref=False):
+def _src_features(s, f, model_ref=False, ref=None):
     f["carries"] = True
+    if s.get("matrix_type") == "cor" and s.get("relative"):
+        r = None if ref is None else ref.get(gen.norm_axis(s.get("axis")))
+        f["rel_cor"][s["name"]] = {"zero": bool(r is not None and np.any(np.asarray(r) == 0)), "negative": bool(r is not None and np.any(np.asarray(r) < 0))}
     st, disc = f["strata"], f["disc"]
     if s.get("relative"):
         st.add("source-relative")
@@ -1177,9 +1184,32 @@ def _src_features(s, f, model_ref=False):
         f["vectors"][s["name"]] = list(v)
 
 
+def reference_values(case):
+    """declared data values to which data-relative sources refer, per axis (None = the only axis)"""
+    try:
+        if case["kind"] == "container":
+            t = case["ctype"]
+            if t == "xy":
+                return {"x": case["x"], "y": case["y"]}
+            if t == "hist":
+                return {None: case["heights"] if "heights" in case else np.histogram(case["entries"], bins=case["edges"])[0]}
+            return {None: case["data"]}
+        if case["kind"] == "fit" and case["ftype"] != "custom":
+            s = case["spec"]
+            if s["type"] == "xy":
+                return {"x": s["x"], "y": s["y"]}
+            if s["type"] == "hist":
+                return {None: case["hist_manual"]["heights"] if case.get("hist_manual") else np.histogram(s["entries"], bins=s["edges"])[0]}
+            return {None: s["data"]}
+    except Exception:
+        pass
+    return None
+
+
 def features(case):
-    f = {"carries": False, "disc": [], "strata": set(), "vectors": {}, "scale": 10.0 ** case.get("scale", 0), "sets": {}}
+    f = {"carries": False, "disc": [], "strata": set(), "vectors": {}, "scale": 10.0 ** case.get("scale", 0), "sets": {}, "rel_cor": {}}
     kind = case["kind"]
+    ref = reference_values(case)
     k = case.get("scale", 0)
     if k <= -6:
         f["strata"].add("magnitude-tiny")
@@ -1189,7 +1219,7 @@ def features(case):
         f["disc"].append("magnitude 1e%d" % k)
     if kind in ("container", "pmodel"):
         for s in case.get("sources", []):
-            _src_features(s, f)
+            _src_features(s, f, ref=ref)
         for n in case.get("disabled", []):
             f["strata"].add("source-disabled")
             f["disc"].append("disabled source")
@@ -1233,7 +1263,7 @@ def features(case):
         for op in case["ops"]:
             if op[0] in ("add_error", "add_matrix_error"):
                 s = dict(op[1])
-                _src_features(s, f, model_ref=s.get("reference") == "model")
+                _src_features(s, f, model_ref=s.get("reference") == "model", ref=ref if s.get("reference", "data") == "data" else None)
                 f["sets"].setdefault("source_config", set()).add(
                     "%s/%s/%s/%s/%s" % ("matrix-" + s["matrix_type"] if "matrix" in s else "simple", "rel" if s.get("relative") else "abs", s.get("reference", "data"), gen.norm_axis(s.get("axis")), "vec" if isinstance(s.get("err", s.get("err_val")), list) else "scalar")
                 )
@@ -1343,6 +1373,16 @@ def _classify(h, obs, wit):
             ev, gv = eo[name].get(fld), go[name].get(fld)
             if isinstance(ev, list) and isinstance(gv, list) and len(set(ev)) > 1 and len(set(gv)) == 1 and gv[0] == ev[0]:
                 return "C09/error-vector-collapsed-to-first-element"
+    # -- relative source given as correlation matrix: the written matrix is derived from the *absolute* covariance
+    if f.get("rel_cor"):
+        name = path.split(".")[0]
+        if obs == "sources.values" and ".cov_mat" in path and name in f["rel_cor"] and f["rel_cor"][name]["negative"] and _num(exp) and _num(got) and _isclose(got, -exp):
+            return "C09/relative-correlation-matrix-source-written-from-absolute-covariance"
+        if obs == "from_file" and wit.get("exc_type") == "ValueError" and "Corelation matrix has non-unit entry" in exc and any(v["zero"] for v in f["rel_cor"].values()):
+            return "C09/relative-correlation-matrix-source-written-from-absolute-covariance"
+    # -- a cost function restored from its source text (CustomFit; UnbinnedFit, whose nll has no identifier) has no retrievable source: the reloaded fit cannot be saved again
+    if kind == "fit" and case["ftype"] in ("custom", "unbinned") and obs == "to_file" and wit.get("where") == "second" and wit.get("exc_type") == "OSError" and "source code" in exc and "_cost_function.func" in str(wit.get("traceback", "")):
+        return "C09/cost-function-restored-from-source-cannot-be-saved-again"
     # -- relative simple constraint written with its absolute uncertainty under relative: true
     if obs == "constraints" and wit.get("objects"):
         eo, go = wit["objects"]
@@ -1371,7 +1411,12 @@ def _classify(h, obs, wit):
 # ------------------------------------------------------------------ histories
 def parse_doc(path):
     with open(path) as fh:
-        return plain(yaml.load(fh, MatrixYamlLoader))
+        d = plain(yaml.load(fh, MatrixYamlLoader))
+    # raw histogram entries are a multiset: HistContainer itself reorders them when it processes pending entries
+    for sub in (d, d.get("dataset") if isinstance(d, dict) else None):
+        if isinstance(sub, dict) and isinstance(sub.get("raw_data"), list):
+            sub["raw_data"] = sorted(sub["raw_data"])
+    return d
 
 
 COMPUTED = ("fit_results.cost", "fit_results.goodness_of_fit", "fit_results.gof/ndf", "fit_results.chi2_probability")
@@ -1448,6 +1493,22 @@ def stage_fit(ctx, fit, stage):
     return True
 
 
+def quiescent(ctx, fit):
+    """the original is observed at a quiescent point: two consecutive observations must agree (an original whose
+    public reads move its own state - minimiser copies after MINOS - is C08's subject, not a save/load defect)"""
+    try:
+        o1 = [(g[0], plain(g[1])) for g in obs_fit(fit)]
+        o2 = [(g[0], plain(g[1])) for g in obs_fit(fit)]
+    except Exception:
+        ctx.discard("original-not-observable")
+        return False
+    for a, b in zip(o1, o2):
+        if diff(a[1], b[1]) is not None:
+            ctx.discard("original-not-quiescent-under-observation")
+            return False
+    return True
+
+
 def build_staged_fit(ctx, case, count_ops=True):
     fut = FitUnderTest(case)
     fut.apply(ctx if count_ops else None, case["ops"])
@@ -1494,7 +1555,7 @@ def refit(h, fit, re, case):
 
 def run_fit(ctx, h, case, tmp, tag):
     fit = build_staged_fit(ctx, case)
-    if not stage_fit(ctx, fit, case["stage"]):
+    if not stage_fit(ctx, fit, case["stage"]) or not quiescent(ctx, fit):
         h.alive = False
         h.discarded = True
         return
@@ -1561,7 +1622,7 @@ def run_wwr(ctx, h_factory, case, tmp):
 def run_state(ctx, h, case, tmp):
     fc = case["fit"]
     fit = build_staged_fit(ctx, fc)
-    if not stage_fit(ctx, fit, fc["stage"]):
+    if not stage_fit(ctx, fit, fc["stage"]) or not quiescent(ctx, fit):
         h.alive = False
         h.discarded = True
         return
